@@ -71,6 +71,120 @@ rc::Gen<vh::Case> vh_gen(const vh::Opts&) {
 
 static std::string hex(const uint8_t* p, size_t n) { std::string s; char b[4]; for (size_t i = 0; i < n; i++) { snprintf(b, sizeof b, "%02x", p[i]); s += b; } return s; }
 
+// ---- decoder-text normalisation --------------------------------------------------------------------------------------
+// Decoders print the same instruction differently depending on the encoding chosen (imm8 sign-extended vs imm16, prefix
+// order, operand order of symmetric instructions). Normalise: numbers are reduced modulo the operand size (outside
+// brackets) / address size (inside brackets), leading prefix words are sorted, xchg/test operands are sorted.
+static bool is_prefix_word(const std::string& w) {
+  static const char* k[] = {"lock", "rep", "repe", "repz", "repne", "repnz", "xacquire", "xrelease", "data16", "data32", "addr16", "addr32", "es", "cs", "ss",
+                            "ds", "fs", "gs", "wait", "fwait", "notrack", "bnd", ";"};
+  for (const char* x : k) if (w == x) return true;
+  return w.rfind("rex", 0) == 0;
+}
+
+static std::string norm_text(const std::string& t, int opsize, int addrbits) {
+  // 1. numbers
+  std::string o;
+  int depth = 0;
+  size_t i = 0, n = t.size();
+  auto mask = [](uint64_t v, int bits) { return bits >= 64 || bits <= 0 ? v : (v & ((uint64_t(1) << bits) - 1)); };
+  while (i < n) {
+    char ch = t[i];
+    if (ch == '[') depth++;
+    if (ch == ']') depth--;
+    bool numstart = isdigit((unsigned char)ch) && (i == 0 || !(isalnum((unsigned char)t[i - 1]) || t[i - 1] == '_' || t[i - 1] == '.'));
+    if (numstart) {
+      size_t j = i;
+      uint64_t v = 0;
+      if (t.compare(i, 2, "0x") == 0) { j = i + 2; while (j < n && isxdigit((unsigned char)t[j])) { v = v * 16 + uint64_t(isdigit((unsigned char)t[j]) ? t[j] - '0' : (tolower(t[j]) - 'a' + 10)); j++; } }
+      else { while (j < n && isdigit((unsigned char)t[j])) { v = v * 10 + uint64_t(t[j] - '0'); j++; } if (j < n && t[j] == 'h') j++; }
+      // scale factor like "4*rcx" or "rcx*4": keep literally
+      bool is_scale = (j < n && t[j] == '*') || (i > 0 && t[i - 1] == '*');
+      if (is_scale) { o.append(t, i, j - i); i = j; continue; }
+      // sign: "-0x2" attached, or "- 0x2" / "+ 0x2" inside brackets
+      bool neg = false;
+      size_t k = o.size();
+      while (k > 0 && o[k - 1] == ' ') k--;
+      if (k > 0 && (o[k - 1] == '-' || o[k - 1] == '+')) { neg = o[k - 1] == '-'; o.resize(k - 1); while (!o.empty() && o.back() == ' ') o.pop_back(); o += depth > 0 ? "+" : " "; }
+      if (neg) v = uint64_t(0) - v;
+      v = mask(v, depth > 0 ? addrbits : opsize);
+      char b[32]; snprintf(b, sizeof b, "0x%llx", (unsigned long long)v);
+      o += b;
+      i = j;
+      continue;
+    }
+    o += ch;
+    i++;
+  }
+  // 2. split words, sort leading prefixes
+  std::vector<std::string> words; std::string w;
+  for (char ch : o) { if (ch == ' ') { if (!w.empty()) words.push_back(w); w.clear(); } else w += ch; }
+  if (!w.empty()) words.push_back(w);
+  std::vector<std::string> pre, rest;
+  size_t wi = 0;
+  for (; wi < words.size() && is_prefix_word(words[wi]); wi++) if (words[wi] != ";") pre.push_back(words[wi]);
+  for (; wi < words.size(); wi++) rest.push_back(words[wi]);
+  std::sort(pre.begin(), pre.end());
+  std::string r;
+  for (auto& x : pre) { r += x; r += ' '; }
+  std::string body;
+  for (auto& x : rest) { body += x; body += ' '; }
+  // 3. symmetric instructions
+  if (!rest.empty() && (rest[0] == "xchg" || rest[0] == "test")) {
+    size_t sp = body.find(' ');
+    std::string ops = body.substr(sp + 1);
+    size_t comma = std::string::npos; int d = 0;
+    for (size_t q = 0; q < ops.size(); q++) { if (ops[q] == '[') d++; if (ops[q] == ']') d--; if (ops[q] == ',' && d == 0) { comma = q; break; } }
+    if (comma != std::string::npos) {
+      std::string a = ops.substr(0, comma), b = ops.substr(comma + 1);
+      auto trim = [](std::string& z) { while (!z.empty() && z.back() == ' ') z.pop_back(); while (!z.empty() && z[0] == ' ') z.erase(0, 1); };
+      trim(a); trim(b);
+      if (b < a) std::swap(a, b);
+      body = rest[0] + " " + a + "," + b + " ";
+    }
+  }
+  return r + body;
+}
+
+struct SeqText { size_t consumed = 0; std::string text; int count = 0; };
+
+static SeqText llvm_seq(oracle::LlvmMc& mc, const uint8_t* p, size_t n) {
+  SeqText s;
+  while (s.consumed < n && s.count < 6) {
+    oracle::Decoded d = mc.decode(p + s.consumed, n - s.consumed, s.consumed);
+    if (!d.length) break;
+    if (s.count) s.text += " ; ";
+    s.text += d.text; s.consumed += d.length; s.count++;
+  }
+  return s;
+}
+static SeqText opc_seq(int mode, const uint8_t* p, size_t n) {
+  SeqText s;
+  while (s.consumed < n && s.count < 6) {
+    oracle::OpcDecoded d = oracle::opc_decode(mode, p + s.consumed, n - s.consumed, s.consumed);
+    if (!d.length) break;
+    if (s.count) s.text += " ; ";
+    s.text += d.text; s.consumed += d.length; s.count++;
+  }
+  return s;
+}
+
+static std::string reason_code(const std::string& m) {
+  struct K { const char* kw; const char* code; };
+  static const K ks[] = {
+    {"segment prefix", "seg"}, {"address-size", "a67"}, {"lock prefix", "lock"}, {"operand-size prefix", "p66"}, {"F2 prefix", "rep"}, {"F3 prefix", "rep"},
+    {"REX.W", "rexw"}, {"VEX/EVEX.W", "vexw"}, {"pp ", "pp"}, {"opcode map", "map"}, {"vector length", "vl"}, {"L'L", "vl"}, {"EVEX.b", "evexb"},
+    {"EVEX.aaa", "aaa"}, {"EVEX.z", "z"}, {"opcode byte", "opcode"}, {"3DNow", "opcode"}, {"ModRM.reg", "modrm-reg"}, {"ModRM.mod", "modrm-mod"},
+    {"register operand but", "modrm-mod"}, {"memory operand but", "modrm-mod"}, {"ModRM.rm", "modrm-rm"}, {"extension", "ext"}, {"EVEX.X", "ext"},
+    {"EVEX.R'", "ext"}, {"EVEX.V'", "ext"}, {"base/index/scale", "sib"}, {"displacement", "disp"}, {"rip-relative", "rip"}, {"address size", "addrsize"},
+    {"vvvv", "vvvv"}, {"REX prefix with", "rex"}, {"without REX", "rex"}, {"rex option", "rex"}, {"moffs", "moffs"}, {"immediate", "imm"}, {"imm4", "imm"},
+    {"is4", "is4"}, {"trailing", "trailing"}, {"truncated", "truncated"}, {"FWAIT", "fwait"}, {"duplicate", "dup-prefix"}, {"two segment", "dup-prefix"},
+    {"legacy 66", "legacy-prefix"}, {"prefix byte", "vexprefix"}, {"vex3 option", "vex3"},
+  };
+  for (const K& k : ks) if (m.find(k.kw) != std::string::npos) return k.code;
+  return "other";
+}
+
 void vh_run(const vh::Case& c, vh::Ctx& ctx) {
   int mode = (c.cfg.size() > 0 && c.cfg[0] == 32) ? 32 : 64;
   size_t fi = c.cfg.size() > 1 ? size_t(uint64_t(c.cfg[1]) % g_db.forms.size()) : 0;
@@ -99,67 +213,91 @@ void vh_run(const vh::Case& c, vh::Ctx& ctx) {
   const uint8_t* A = buf.data();
   size_t An = buf.size();
   std::string desc = std::string(mode == 64 ? "x64 " : "x86 ") + text + " => " + hex(A, An);
-  VH_CHECK(ctx, An > 0 && An <= 15, "length-out-of-range", "%s: %zu bytes appended", desc.c_str(), An);
+  if (!(An > 0 && An <= 15)) { if (!ctx.fail_unless_known("length-out-of-range:" + f.name, desc + ": " + std::to_string(An) + " bytes appended (architectural limit is 15)")) {} }
   VH_CHECK(ctx, a.offset() == An, "offset-mismatch", "%s: offset() %zu != buffer size %zu", desc.c_str(), a.offset(), An);
+  VH_CHECK(ctx, code.reloc_entries().size() == 0 && code.label_count() == 0, "unexpected-reloc", "%s: %zu relocations created for a label-free instruction", desc.c_str(), code.reloc_entries().size());
 
   oracle::LlvmMc& mc = mode == 64 ? *g_mc64 : *g_mc32;
   bool judged = false;
-  std::string j;
 
   // ---- J3: database template ----
   xt::Verdict tv = xt::judge(g_db, x, A, An);
+  // semantic no-op rewrites AsmJit performs on purpose and the architecture defines as equivalent
+  bool equiv = false;
+  if (tv.status == xt::kMismatch) {
+    bool same_acc = x.ops.size() == 2 && x.ops[0].kind == xi::Opnd::kReg && x.ops[1].kind == xi::Opnd::kReg && x.ops[0].reg.id == 0 && x.ops[1].reg.id == 0 &&
+                    x.ops[0].reg.rc == x.ops[1].reg.rc;
+    if (f.name == "xchg" && same_acc && An == 1 && A[0] == 0x90 && (x.ops[0].reg.rc == xi::RC::Gp64 || (x.ops[0].reg.rc == xi::RC::Gp32 && mode == 32))) { tv.status = xt::kMatch; equiv = true; ctx.cls("equiv_xchg_acc_acc_is_nop"); }
+    if ((f.name == "ret" || f.name == "retf") && x.ops.size() == 1 && x.ops[0].kind == xi::Opnd::kImm && x.ops[0].imm == 0 && An == 1 && A[0] == (f.name == "ret" ? 0xC3 : 0xCB)) { tv.status = xt::kMatch; equiv = true; ctx.cls("equiv_ret_0_is_ret"); }
+  }
   if (tv.status == xt::kMatch) { judged = true; ctx.cls("j3_match"); }
   else if (tv.status == xt::kUndecided) ctx.cls("j3_undecided");
 
   // ---- J1 / J2 ----
-  oracle::Decoded dA = mc.decode(A, An);
-  oracle::OpcDecoded oA = oracle::opc_decode(mode, A, An);
+  int opsize = 0, addrbits = mode;
+  for (const xi::Opnd& o : x.ops) {
+    if (o.kind == xi::Opnd::kReg && !opsize) opsize = xi::rc_bits(o.reg.rc);
+    if (o.kind == xi::Opnd::kMem) { if (!opsize) opsize = o.mem.size_bits; if (o.mem.addr_bits) addrbits = o.mem.addr_bits; }
+  }
+  if (opsize > 64 || opsize == 0) opsize = 64;
+  SeqText dA = llvm_seq(mc, A, An);
+  SeqText oA = opc_seq(mode, A, An);
   std::vector<uint8_t> L;
   std::string lerr;
   unsigned fix = 0;
   bool asm_ok = mc.assemble(text, L, lerr, &fix) && fix == 0 && !L.empty();
-  bool j1_mismatch = false, j2_mismatch = false;
+  bool j1_len_bad = false, j2_len_bad = false, j1_text_bad = false, j2_text_bad = false, j1_agree = false, j2_agree = false;
   std::string j1_detail, j2_detail;
-  if (dA.length) {
-    if (dA.length != An) { j1_mismatch = true; j1_detail = "llvm decodes " + std::to_string(dA.length) + " of " + std::to_string(An) + " bytes as '" + dA.text + "'"; }
-  } else ctx.cls("llvm_cannot_decode");
-  if (oA.length) {
-    if (oA.length != An) { j2_mismatch = true; j2_detail = "opcodes decodes " + std::to_string(oA.length) + " of " + std::to_string(An) + " bytes as '" + oA.text + "'"; }
-  } else ctx.cls("opc_cannot_decode");
+  if (dA.count) { if (dA.consumed != An) { j1_len_bad = true; j1_detail = "llvm decodes only " + std::to_string(dA.consumed) + " of " + std::to_string(An) + " bytes: '" + dA.text + "'"; } }
+  else ctx.cls("llvm_cannot_decode");
+  if (oA.count) { if (oA.consumed != An) { j2_len_bad = true; j2_detail = "opcodes decodes only " + std::to_string(oA.consumed) + " of " + std::to_string(An) + " bytes: '" + oA.text + "'"; } }
+  else ctx.cls("opc_cannot_decode");
   bool l_matches_template = false;
   if (asm_ok) {
     ctx.cls("llvm_assembled");
-    oracle::Decoded dL = mc.decode(L.data(), L.size());
-    oracle::OpcDecoded oL = oracle::opc_decode(mode, L.data(), L.size());
+    SeqText dL = llvm_seq(mc, L.data(), L.size());
+    SeqText oL = opc_seq(mode, L.data(), L.size());
     xt::Verdict tl = xt::judge(g_db, x, L.data(), L.size());
     l_matches_template = tl.status == xt::kMatch;
-    if (dA.length && dL.length == L.size() && !j1_mismatch) {
-      if (dA.text != dL.text) { j1_mismatch = true; j1_detail = "llvm decodes asmjit bytes as '" + dA.text + "' but its own encoding " + hex(L.data(), L.size()) + " as '" + dL.text + "'"; }
-      else { ctx.cls("j1_agree"); judged = true; }
+    if (dA.count && !j1_len_bad && dL.consumed == L.size()) {
+      std::string na = norm_text(dA.text, opsize, addrbits), nl = norm_text(dL.text, opsize, addrbits);
+      if (na != nl) { j1_text_bad = true; j1_detail = "llvm decodes asmjit bytes as '" + dA.text + "' but its own encoding " + hex(L.data(), L.size()) + " of the same text as '" + dL.text + "'"; }
+      else { j1_agree = true; ctx.cls("j1_agree"); judged = true; }
     }
-    if (oA.length && oL.length == L.size() && !j2_mismatch) {
-      if (oA.text != oL.text) { j2_mismatch = true; j2_detail = "opcodes decodes asmjit bytes as '" + oA.text + "' but llvm's encoding " + hex(L.data(), L.size()) + " as '" + oL.text + "'"; }
-      else { ctx.cls("j2_agree"); judged = true; }
+    if (oA.count && !j2_len_bad && oL.consumed == L.size()) {
+      std::string na = norm_text(oA.text, opsize, addrbits), nl = norm_text(oL.text, opsize, addrbits);
+      if (na != nl) { j2_text_bad = true; j2_detail = "opcodes decodes asmjit bytes as '" + oA.text + "' but llvm's encoding " + hex(L.data(), L.size()) + " as '" + oL.text + "'"; }
+      else { j2_agree = true; ctx.cls("j2_agree"); judged = true; }
     }
   } else ctx.cls("llvm_refused_rendering");
 
+  // The independent assembler and both decoders side with AsmJit against the DB row: the row is the outlier.
+  bool db_outlier = tv.status == xt::kMismatch && asm_ok && j1_agree && (j2_agree || !oA.count);
+  if (db_outlier) ctx.cls("db_row_outvoted_by_llvm_and_opcodes");
+
   if (g_survey) {
-    if (g_survey_out && (tv.status == xt::kMismatch || j1_mismatch || j2_mismatch || !asm_ok))
-      fprintf(g_survey_out, "%s | form#%d %s [%s] | j3=%s %s | j1=%s | j2=%s | asm=%s Lt=%d\n", desc.c_str(), f.idx, f.opcodeString.c_str(), f.encoding.c_str(),
+    bool both_text_bad = (j1_text_bad && (j2_text_bad || !oA.count)) || (j2_text_bad && (j1_text_bad || !dA.count));
+    bool interesting = (tv.status == xt::kMismatch && !db_outlier) || j1_len_bad || j2_len_bad || (both_text_bad && l_matches_template && tv.status == xt::kMatch && !equiv);
+    if (g_survey_out && (interesting || !asm_ok || j1_text_bad || j2_text_bad || db_outlier))
+      fprintf(g_survey_out, "%s%s | form#%d %s [%s] | j3=%s %s | j1=%s | j2=%s | asm=%s Lt=%d\n", interesting ? "!! " : db_outlier ? "DB " : "   ", desc.c_str(), f.idx, f.opcodeString.c_str(), f.encoding.c_str(),
               tv.status == xt::kMatch ? "match" : tv.status == xt::kMismatch ? "MISMATCH" : "undecided", tv.detail.c_str(),
-              j1_mismatch ? j1_detail.c_str() : "-", j2_mismatch ? j2_detail.c_str() : "-", asm_ok ? "ok" : lerr.c_str(), int(l_matches_template));
-    if (tv.status == xt::kMismatch) ctx.cls("survey_j3_mismatch");
-    if (j1_mismatch) ctx.cls("survey_j1_mismatch");
-    if (j2_mismatch) ctx.cls("survey_j2_mismatch");
+              (j1_len_bad || j1_text_bad) ? j1_detail.c_str() : "-", (j2_len_bad || j2_text_bad) ? j2_detail.c_str() : "-", asm_ok ? "ok" : lerr.c_str(), int(l_matches_template));
+    if (interesting) ctx.cls("survey_interesting");
   } else {
-    // Verdict. The DB template is the arbiter between "AsmJit is wrong" and "LLVM chose another form for our text".
-    if (tv.status == xt::kMismatch)
-      ctx.fail("db-template-mismatch", desc + " :: bytes are not an encoding of any matching ISA-DB form: " + tv.detail);
-    if (j1_mismatch && (dA.length != An || l_matches_template || tv.status != xt::kMatch))
-      ctx.fail("llvm-decode-mismatch", desc + " :: " + j1_detail);
-    if (j2_mismatch && (oA.length != An || l_matches_template || tv.status != xt::kMatch))
-      ctx.fail("opcodes-decode-mismatch", desc + " :: " + j2_detail);
-    if (j1_mismatch || j2_mismatch) ctx.cls("decoder_text_differs_but_llvm_used_other_form");
+    // ---- verdict ----
+    if (tv.status == xt::kMismatch && !db_outlier) {
+      std::string key = "j3-" + reason_code(tv.detail) + ":" + f.name;
+      if (!ctx.fail_unless_known(key, desc + " :: bytes are not an encoding of any ISA-DB form of '" + f.name + "' that admits these operands: " + tv.detail)) {}
+    }
+    if (j1_len_bad) ctx.fail_unless_known("llvm-length:" + f.name, desc + " :: " + j1_detail);
+    if (j2_len_bad && !(dA.count && !j1_len_bad)) ctx.fail_unless_known("opcodes-length:" + f.name, desc + " :: " + j2_detail);
+    // Text disagreement counts only when LLVM's own bytes are an encoding of the same DB form (so the text difference is
+    // not LLVM choosing another instruction for our rendering) and BOTH decoders see a difference (or one cannot decode).
+    bool both_text_bad = (j1_text_bad && (j2_text_bad || !oA.count)) || (j2_text_bad && (j1_text_bad || !dA.count));
+    if (both_text_bad && l_matches_template && tv.status == xt::kMatch && !equiv)
+      ctx.fail_unless_known("decoders-text:" + f.name, desc + " :: " + (j1_text_bad ? j1_detail : j2_detail));
+    if ((j1_text_bad || j2_text_bad) && tv.status == xt::kMatch && !l_matches_template) ctx.cls("llvm_chose_another_form_for_our_text");
+    if ((j1_text_bad || j2_text_bad) && tv.status == xt::kUndecided) ctx.cls("unarbitrated_decoder_disagreement");
   }
 
   if (judged) {
